@@ -105,6 +105,9 @@ def _family(run, fam, plan):
         for n, (fmt, seed) in enumerate(plan):
             tag = "_%s_%s_%d" % (name, fmt, n)
             feat = "yaml" if fmt == "yaml2" else fmt
+            all_cases = fam[1]
+            # (module Numbers: a project written in one format's dialect - `+5`, `.5`, `0x1F`, `True` - exists in that format only)
+            cases = [c for c in all_cases if (c.get("abs") or {}).get("only") in (None, feat)]
             loadfam.replay_load(run, cases, tmod, tcfg, build_features=(feat, "quote"), variant=feat + "-quote", fmt=fmt,
                                 perm_seed=seed, tag=tag, trace_env=tenv, keep_dirs=(n <= 1),
                                 key_of=lambda c, r, nm=name, f=fmt, s=seed: _key(nm, f, s, c, r))
